@@ -50,6 +50,9 @@ MUTANTS = [
   "                hunk.remove.content.push(line);\n                header.remove_count -= 1;\n\n                there_was_a_non_context_line = true;", ["C01.hunk_wf"], ["C11"]),
  ("parser", "src/libpatch/patch/unified/parser.rs", "        if count == 0 {\n            line as isize\n        } else {", "        if false {\n            line as isize\n        } else {", ["C01.start_lines"], ["C11"]),
  ("parser", "src/libpatch/patch/unified/parser.rs", "hunk.add.content.reserve(std::cmp::min(header.add_count, input.len()));", "hunk.add.content.reserve(header.add_count);", ["parse_hunk.body"], []),
+ # parse_c_string (totality): the byte after a backslash "is always there"
+ ("parser", "src/libpatch/patch/unified/parser.rs", "                let c = match input.get(index) {", "                let c = match Some(&input[index]) {", ["parse_c_string.body"], []),
+ ("parser", "src/libpatch/patch/unified/parser.rs", "                        match parse_oct3(&input[index..]) {", "                        match parse_oct3(&input[index + 1..]) {", ["parse_c_string.body"], []),
  # token parsers (verified bodies since the fourth seed round)
  ("parser", "src/libpatch/patch/unified/parser.rs", "    if digits.len() != 6 { // This is what patch requires", "    if digits.len() > 6 { // This is what patch requires", ["C11.tokens"], []),
  ("parser", "src/libpatch/patch/unified/parser.rs", "            => Err(ErrorBuilder::BadHash(input)),\n        (name, rest)\n            => Ok((rest, name)),",
